@@ -143,7 +143,8 @@ def control_flow_cases():
     disps32 = [b"\x00\x00\x00\x00", b"\x01\x00\x00\x00", b"\xff\xff\xff\x7f", b"\x00\x00\x00\x80", b"\xff\xff\xff\xff",
                b"\x00\x10\x00\x00", b"\xf0\xff\xff\xff", b"\xff\x7f\x00\x00", b"\x00\x80\x00\x00", b"\xfe\xff\x00\x00"]
     out = []
-    for pfx in (b"", b"\x66", b"\x67", b"\x2e", b"\x3e", b"\x26", b"\x36", b"\x64", b"\x65", b"\x66\x66", b"\x67\x67", b"\x66\x67\x66", b"\x2e\x66", b"\x66\x3e"):
+    for pfx in (b"", b"\x66", b"\x67", b"\x2e", b"\x3e", b"\x26", b"\x36", b"\x64", b"\x65", b"\x66\x66", b"\x67\x67", b"\x66\x67\x66", b"\x2e\x66", b"\x66\x3e",
+                b"\x66\x67", b"\x67\x66", b"\x2e\x66\x67", b"\x67\x3e\x66"):
         for cc in range(16):
             for d in disps8:
                 out.append(window(pfx, bytes([0x70 + cc]), bytes([d]) + PATTERN))
